@@ -58,6 +58,7 @@ def WrapKind.name : WrapKind → Str
 /-- the parameterized core types of the fragment -/
 inductive TKind where
   | integer | float | string | boolean | enum | regexp | pattern | variant | array | hash | collection | tuple | struct
+  | callable | runtime | typeRef
   | wrap (k : WrapKind)
   deriving DecidableEq, Repr
 
@@ -75,10 +76,14 @@ def TKind.name : TKind → Str
   | .collection => "Collection".toList
   | .tuple => "Tuple".toList
   | .struct => "Struct".toList
+  | .callable => "Callable".toList
+  | .runtime => "Runtime".toList
+  | .typeRef => "TypeReference".toList
   | .wrap k => k.name
 
 def allKinds : List TKind :=
   [.integer, .float, .string, .boolean, .enum, .regexp, .pattern, .variant, .array, .hash, .collection, .tuple, .struct,
+   .callable, .runtime, .typeRef,
    .wrap .optional, .wrap .notUndef, .wrap .type_, .wrap .sensitive, .wrap .iterable, .wrap .iterator]
 
 /-- `coreTypes[name]` restricted to the parameterized types of the fragment -/
@@ -101,6 +106,9 @@ inductive Ty where
   | collection (lo hi : Int)
   | tuple (ts : List Ty) (sz : Option (Int × Int))   -- `size` may be nil
   | struct (ms : List (Str × Bool × Ty))            -- per element: name, "the key is an Optional[…]", value type
+  | callable (ps ret blk : Option Ty)               -- `paramsType` (a Tuple, or nil), `returnType`, `blockType`
+  | runtime (rt name : Str) (pat : Option Str)      -- runtime, name, pattern (the source of a Regexp type, or nil)
+  | typeRef (s : Str)                               -- `TypeReference['s']`; also what an unknown type name resolves to
   deriving Repr, Inhabited
 
 mutual
@@ -121,6 +129,13 @@ def Ty.beq : Ty → Ty → Bool
   | .collection a b, .collection c d => a == c && b == d
   | .tuple a b, .tuple c d => Ty.beqList a c && b == d
   | .struct a, .struct b => Ty.beqMembers a b
+  | .callable a b c, .callable d e f => Ty.beqOpt a d && Ty.beqOpt b e && Ty.beqOpt c f
+  | .runtime a b c, .runtime d e f => a == d && b == e && c == f
+  | .typeRef a, .typeRef b => a == b
+  | _, _ => false
+def Ty.beqOpt : Option Ty → Option Ty → Bool
+  | none, none => true
+  | some a, some b => Ty.beq a b
   | _, _ => false
 def Ty.beqList : List Ty → List Ty → Bool
   | [], [] => true
@@ -132,6 +147,40 @@ def Ty.beqMembers : List (Str × Bool × Ty) → List (Str × Bool × Ty) → Bo
   | _, _ => false
 end
 
+mutual
+/-- `T.Equals(U)` as the implementation has it: structural, except that `CallableType.Equals` answers true for any two
+    Callable types (it compares nothing), also where they occur nested inside other types -/
+def Ty.eqGo : Ty → Ty → Bool
+  | .named a, .named b => a == b
+  | .int a b, .int c d => a == c && b == d
+  | .float a b c d, .float e f g h => a == e && b == f && c == g && d == h
+  | .strSz a b, .strSz c d => a == c && b == d
+  | .strVal a, .strVal b => a == b
+  | .bool a, .bool b => a == b
+  | .enum a b, .enum c d => a == c && b == d
+  | .regexp a, .regexp b => a == b
+  | .pattern a, .pattern b => a == b
+  | .wrap k a, .wrap j b => k == j && Ty.eqGo a b
+  | .variant a, .variant b => Ty.eqGoList a b
+  | .array a b c, .array d e f => Ty.eqGo a d && b == e && c == f
+  | .hash a b c d, .hash e f g h => Ty.eqGo a e && Ty.eqGo b f && c == g && d == h
+  | .collection a b, .collection c d => a == c && b == d
+  | .tuple a b, .tuple c d => Ty.eqGoList a c && b == d
+  | .struct a, .struct b => Ty.eqGoMembers a b
+  | .callable _ _ _, .callable _ _ _ => true           -- `CallableType.Equals`: any two Callables are equal
+  | .runtime a b c, .runtime d e f => a == d && b == e && c == f
+  | .typeRef a, .typeRef b => a == b
+  | _, _ => false
+def Ty.eqGoList : List Ty → List Ty → Bool
+  | [], [] => true
+  | a :: as, b :: bs => Ty.eqGo a b && Ty.eqGoList as bs
+  | _, _ => false
+def Ty.eqGoMembers : List (Str × Bool × Ty) → List (Str × Bool × Ty) → Bool
+  | [], [] => true
+  | (n, o, a) :: as, (m, p, b) :: bs => n == m && o == p && Ty.eqGo a b && Ty.eqGoMembers as bs
+  | _, _ => false
+end
+
 def tyAny : Ty := .named "Any".toList
 def tyUnit : Ty := .named "Unit".toList
 def tyString : Ty := .named "String".toList
@@ -139,7 +188,7 @@ def tyString : Ty := .named "String".toList
 /-- the parameterless types of the fragment: a bare name that resolves to a type which prints as that name -/
 def plainNames : List Str :=
   ["Any", "Unit", "Undef", "Default", "Scalar", "ScalarData", "Numeric", "Data", "RichData", "Binary", "String",
-   "Callable", "Timespan", "Timestamp", "SemVer", "SemVerRange", "URI", "Runtime", "Object", "Init",
+   "Timespan", "Timestamp", "SemVer", "SemVerRange", "URI", "Object", "Init",
    "TypeSet"].map String.toList
 
 /-! ### printing -/
@@ -165,6 +214,9 @@ def fkey (b : Nat) : Int := if b ≥ 2 ^ 63 then -((b - 2 ^ 63 : Nat) : Int) els
 def floatParams (lo : Nat) (lot : Str) (hi : Nat) (hit : Str) : List Val :=
   if lo = fNegMax then (if hi = fPosMax then [] else [.dflt, .float hi hit])
   else if hi = fPosMax then [.float lo lot] else [.float lo lot, .float hi hit]
+
+/-- `typeReferenceTypeDefault.typeString` -/
+def unresolvedRef : Str := "UnresolvedReference".toList
 
 def Ty.isAny : Ty → Bool
   | .named n => n == "Any".toList
@@ -240,9 +292,39 @@ def tyExpr : Ty → Val
        | none => []
        | some r => if ts.isEmpty ∧ r.1 = 0 ∧ r.2 = i64max then [] else sizeParams r.1 r.2))
   | .struct ms => tname .struct (if ms.isEmpty then [] else [.hash (tyMembers ms)])
+  | .callable ps ret blk =>
+    -- `CallableType.Parameters`: the parameters of the Tuple without its `Unit` members, then the block type; with a
+    -- return type the whole list becomes one array followed by the return type
+    let tp : List Val :=
+      match ps with
+      | some (.tuple ts sz) =>
+        tyExprsNU ts ++
+          (match sz with
+           | none => []
+           | some r => if ts.isEmpty ∧ r.1 = 0 ∧ r.2 = i64max then [] else sizeParams r.1 r.2)
+      | _ => []
+    let pb : List Val :=
+      match blk with
+      | some b => tp ++ [tyExpr b]
+      | none => tp
+    match ret with
+    | some r => tname .callable [.arr pb, tyExpr r]
+    | none => tname .callable pb
+  | .runtime rt name pat =>
+    if rt.isEmpty then tname .runtime []
+    else
+      tname .runtime (Val.str rt :: ((if name.isEmpty then [] else [Val.str name]) ++
+        (match pat with
+         | some src => [tname .regexp (if src.isEmpty then [] else [.regexp src])]
+         | none => [])))
+  | .typeRef s => tname .typeRef (if s = unresolvedRef then [] else [.str s])
 def tyExprs : List Ty → List Val
   | [] => []
   | t :: ts => tyExpr t :: tyExprs ts
+/-- the member types of a Callable's parameter Tuple without the `Unit` members (`px.Select … !ok`) -/
+def tyExprsNU : List Ty → List Val
+  | [] => []
+  | t :: ts => if t.isUnit then tyExprsNU ts else tyExpr t :: tyExprsNU ts
 /-- `StructType.Parameters`: one hash entry per element -/
 def tyMembers : List (Str × Bool × Ty) → List (Val × Val)
   | [] => []
@@ -451,6 +533,117 @@ def structArgs (fuel : Nat) (args : List Arg) : Option Ty :=
     | [.hash es] => (structMembers es).map .struct
     | _ => none
 
+/-! #### Callable -/
+
+/-- a block type: `Callable` or `Optional[Callable]` -/
+def Ty.isBlock : Ty → Bool
+  | .callable _ _ _ => true
+  | .wrap .optional (.callable _ _ _) => true
+  | _ => false
+
+def Arg.isBlock : Arg → Bool
+  | .ty t => t.isBlock
+  | _ => false
+
+/-- the end of `tupleFromArgs(true, …)`: without member types a Callable's parameter Tuple holds one `Unit` (unless
+    the size is `[0, 0]`) -/
+def tupleMkC (tys : List Arg) (rng : Option (Int × Int)) : Option Ty :=
+  match tys with
+  | [] =>
+    match rng with
+    | none => some (.tuple [tyUnit] none)
+    | some r => if r.1 = 0 ∧ r.2 = 0 then some (.tuple [] (some (0, 0))) else some (.tuple [tyUnit] (some r))
+  | _ => (tys.mapM argTy).map fun ts => .tuple ts rng
+
+/-- the size analysis of `tupleFromArgs(true, …)` on the flattened arguments (same as `tupleBody`, ending in `tupleMkC`) -/
+def tupleBodyC (l : List Arg) : Option Ty :=
+  match l.reverse with
+  | [] => tupleMkC [] none
+  | last :: restRev =>
+    let mx : Option Int :=
+      match last with
+      | .dflt => some i64max
+      | .int n => if n ≥ 0 then some n else none
+      | _ => none
+    match mx with
+    | none => tupleMkC l none
+    | some m =>
+      match restRev with
+      | [] => tupleMkC [] (some (0, i64max))
+      | .int mn :: tysRev => (newInt mn m).bind fun r => tupleMkC tysRev.reverse (some r)
+      | _ => (newInt m restRev.length).bind fun r => tupleMkC restRev.reverse (some r)
+
+/-- `tupleFromArgs(true, args)`: no arguments at all is the default Tuple -/
+def tupleCreateC (args : List Arg) : Option Ty :=
+  match args with
+  | [] => some (.tuple [] (some (0, i64max)))
+  | _ => (tupleFlat args).bind tupleBodyC
+
+/-- the `px.List` view of an argument (`first.(px.List)`): an Array, but also a String (its characters) and a Hash (its
+    entries) — neither of which can hold anything `tupleFromArgs` accepts, so only their being EMPTY matters -/
+def Arg.asList : Arg → Option (List Arg)
+  | .arr as => some as
+  | .str s => some (s.map fun c => Arg.str [c])
+  | .hash es => some (es.map fun e => Arg.hash [e])
+  | _ => none
+
+/-- the first branch of `newCallableType3`: `Callable[Tuple[…], block, return]` -/
+def callableTupleForm (args : List Arg) : Option Ty :=
+  match args with
+  | .ty (.tuple ts sz) :: rest =>
+    match rest with
+    | [] => some (.callable (some (.tuple ts sz)) none none)
+    | [b] => (argTy b).map fun bt => .callable (some (.tuple ts sz)) none (some bt)
+    | b :: r :: _ => (argTy r).map fun rt => .callable (some (.tuple ts sz)) (some rt) (argTy b)   -- `ok` is that of the LAST assertion
+  | _ => none
+
+/-- `newCallableType3` (at least one argument) -/
+def callableCreate (args : List Arg) : Option Ty :=
+  match callableTupleForm args with
+  | some t => some t
+  | none =>
+    -- `[[params, block], return]`
+    let split : Option (Option Ty × List Arg) :=
+      match args with
+      | [a] =>
+        match a.asList with
+        | some iv => some (none, iv)
+        | none => some (none, args)
+      | [a, b] =>
+        match a.asList with
+        | some iv =>
+          match b with
+          | .ty r => some (some r, iv)
+          | _ => none
+        | none => some (none, args)
+      | _ => some (none, args)
+    split.bind fun (rt, inner) =>
+      let (blk, inner2) : Option Ty × List Arg :=
+        match inner.reverse with
+        | last :: restRev => if last.isBlock then (argTy last, restRev.reverse) else (none, inner)
+        | [] => (none, inner)
+      (tupleCreateC inner2).map fun tp => .callable (some tp) rt blk
+
+/-! #### Runtime, TypeReference -/
+
+/-- `newRuntimeType2` / `NewRuntimeType` -/
+def runtimeCreate (args : List Arg) : Option Ty :=
+  let mk (rt name : Str) (pat : Option Str) : Option Ty :=
+    if rt.isEmpty ∧ name.isEmpty ∧ pat.isNone then some (.runtime [] [] none)
+    else if rt = "go".toList ∧ !name.isEmpty then none          -- GO_RUNTIME_TYPE_WITHOUT_GO_TYPE
+    else some (.runtime rt name pat)
+  match args with
+  | [.str rt] => mk rt [] none
+  | [.str rt, .str name] => mk rt name none
+  | [.str rt, .str name, .ty (.regexp src)] => mk rt name (some src)
+  | _ => none
+
+/-- `newTypeReferenceType2` -/
+def typeRefCreate (args : List Arg) : Option Ty :=
+  match args with
+  | [.str s] => some (.typeRef s)
+  | _ => none
+
 def wrapOf (k : WrapKind) (args : List Arg) : Option Ty :=
   match args with
   | [.ty t] => some (.wrap k t)
@@ -538,13 +731,35 @@ def createK (env : Env) (kd : TKind) (args : List Arg) : Option Ty :=
     | _ => none
   | .tuple => tupleCreate args
   | .struct => structArgs fuel args
+  | .callable => callableCreate args
+  | .runtime => runtimeCreate args
+  | .typeRef => typeRefCreate args
   | .wrap k => wrapOf k args
 
-/-- `ResolveWithParams(c, name, args)` -/
+/-- the second spellings of `coreTypes` (`Notundef`, `RegExp`, `Richdata`, …) -/
+def spellings : List (Str × Str) :=
+  [("Notundef", "NotUndef"), ("RegExp", "Regexp"), ("Richdata", "RichData"), ("Scalardata", "ScalarData"), ("Semver", "SemVer"),
+   ("Semverrange", "SemVerRange"), ("SemverRange", "SemVerRange"), ("TimeSpan", "Timespan"), ("TimeStamp", "Timestamp"),
+   ("Typealias", "TypeAlias"), ("Typereference", "TypeReference"), ("Typeset", "TypeSet"), ("Uri", "URI")].map
+    fun p => (p.1.toList, p.2.toList)
+
+/-- the name under which `coreTypes[n]` prints -/
+def canonName (n : Str) : Str :=
+  match spellings.find? fun p => p.1 == n with
+  | some p => p.2
+  | none => n
+
+/-- core type names outside the fragment (they resolve to a type this model does not have) -/
+def coreOther : List Str := ["Annotation", "Like", "TypeAlias"].map String.toList
+
+/-- `ResolveWithParams(c, name, args)`; the parameters of an unknown name go to the creator of `TypeReference` (the type
+    `Resolve` answers for it) -/
 def create (env : Env) (n : Str) (args : List Arg) : Option Ty :=
-  match kindOf n with
+  let c := canonName n
+  match kindOf c with
   | some kd => createK env kd args
-  | none => none
+  | none =>
+    if !plainNames.contains c ∧ !coreOther.contains c ∧ env.unknown n then typeRefCreate args else none
 
 /-- the default type of a parameterized core type -/
 def defaultOf : TKind → Ty
@@ -561,18 +776,26 @@ def defaultOf : TKind → Ty
   | .collection => .collection 0 i64max
   | .tuple => .tuple [] (some (0, i64max))
   | .struct => .struct []
+  | .callable => .callable none none none
+  | .runtime => .runtime [] [] none
+  | .typeRef => .typeRef unresolvedRef
   | .wrap k => .wrap k tyAny
 
-/-- `Resolve(c, name)` for a bare name: the default type of that name -/
-def resolveName (n : Str) : Option Ty :=
-  match kindOf n with
+/-- `Resolve(c, name)` for a bare name: the default type of that name; a name that is neither a core type nor loadable is a
+    `TypeReference` (`loadType`).  `none`: a core type outside the fragment, or a name the loader may know. -/
+def resolveName (env : Env) (n : Str) : Option Ty :=
+  let c := canonName n
+  match kindOf c with
   | some kd => some (defaultOf kd)
-  | none => if plainNames.contains n then some (.named n) else none
+  | none =>
+    if plainNames.contains c then some (.named c)
+    else if !coreOther.contains c ∧ env.unknown n then some (.typeRef n)
+    else none
 
 mutual
 /-- `DeferredType.Resolve` -/
 def resolve (env : Env) : Expr → Option Ty
-  | .dtype n none => resolveName n
+  | .dtype n none => resolveName env n
   | .dtype n (some ps) => (resolveArgs env ps).bind fun args => create env n args
   | _ => none
 /-- `resolveValue` on a type argument -/
